@@ -106,6 +106,10 @@ func (c InjectedCrash) String() string { return fmt.Sprintf("injected crash at i
 // LivenessAbort is the panic value used when a run exceeds its step bound.
 type LivenessAbort struct{ Steps int }
 
+func (l LivenessAbort) String() string {
+	return fmt.Sprintf("main.LivenessAbort: step bound exceeded after %d instructions", l.Steps)
+}
+
 func installHook() {
 	vm.SimStep = func(m *vm.VM, pp int, op byte) {
 		if S != nil {
